@@ -172,6 +172,17 @@ def space_formula_source(f):
 # ----------------------------------------------------------------------------
 # the real side
 
+_TWO_A, _TWO_B = (lambda x: x + 1), (lambda x: x + 2)    # two lambdas on one source line: cannot be captured
+
+
+def raw_formula(f):
+    """formula argument of a raw operation: text (or any JSON value) as is, {"obj": tag} -> a function object
+    that cannot be turned into a formula"""
+    if isinstance(f, dict) and set(f) == {"obj"}:
+        return {"two_lambdas": _TWO_B, "builtin": len, "partial": __import__("functools").partial(max, 1)}[f["obj"]]
+    return f
+
+
 class Real:
     """A live modelx model driven by operations."""
 
@@ -327,13 +338,13 @@ class Real:
         p.new_space(name, **kw)
 
     def op_new_cells_raw(self, path, name, formula):
-        self.space(path).new_cells(name, formula)
+        self.space(path).new_cells(name, raw_formula(formula))
 
     def op_set_formula_raw(self, path, text):
-        self.space(path).formula = text
+        self.space(path).formula = raw_formula(text)
 
     def op_set_cells_formula_raw(self, path, name, text):
-        self.space(path).cells[name].formula = text
+        self.space(path).cells[name].formula = raw_formula(text)
 
     def op_set_value_raw(self, sid, name, keysrc, valuesrc):
         c = self.ctx(tup(sid)).cells[name]
